@@ -291,6 +291,12 @@ class CFGBuilder(AstVisitor[BB | None]):
 
         node, docstring = parse_function_with_docstring(node)
 
+        if node.decorator_list:
+            err = UnsupportedError(
+                node.decorator_list[0], "Decorators on nested functions"
+            )
+            raise GuppyError(err)
+
         func_ty = check_signature(node, self.globals)
         returns_none = isinstance(func_ty.output, NoneType)
         # No UnitaryFlags are assigned to nested functions
